@@ -52,6 +52,7 @@ func VfDHTClose() {
 	vfAssert(err == nil, "close/setup")
 	d.rtRefreshManager = rm
 	rm.Start()
+	d.addPeerToRTChan = make(chan peer.ID) // unbuffered, as makeDHT creates it
 	d.rtPeerLoop()
 	vfAssert(d.startNetworkSubscriber() == nil, "close/setup")
 
@@ -68,7 +69,11 @@ func VfDHTClose() {
 		}
 		return pb.NewMessage(req.Type, nil, 0), nil
 	}
-	opCtx, opCancel := context.WithTimeout(context.Background(), time.Minute)
+	// the caller's context has a deadline, or (when the peer does answer) none at all
+	opCtx, opCancel := context.WithCancel(context.Background())
+	if hang || vfBool("operationHasADeadline") {
+		opCtx, opCancel = context.WithTimeout(context.Background(), time.Minute)
+	}
 	defer opCancel()
 	opDone := make(chan error, 1)
 	withOp := vfBool("operationInFlight")
